@@ -352,8 +352,9 @@ class Job(Resource):
         logger.debug("Job %s: unsatisfied %d", self, self.unsatisfied)
 
         if status == DependencyStatus.FAIL:
-            # Job completed
-            if not self.state.finished():
+            # Job completed (unless it is already running: a job whose process
+            # was taken back ends with the state its process gives)
+            if self.state.notstarted():
                 self.state = JobState.ERROR
                 self.failure_status = JobFailureStatus.DEPENDENCY
                 self._readyEvent.set()
